@@ -14,19 +14,19 @@ PLANS = {
  "C03": P([("refuse", 60), ("torn", 40), ("boundary", 6)], [("refuse", 1500), ("torn", 600), ("boundary", 60)]),
  "C04": P([("reopen", 50), ("reopen_marker", 20), ("roundtrip", 20), ("bigline", 6)],
           [("reopen", 1200), ("reopen_marker", 500), ("roundtrip", 400), ("bigline", 20)], op_timeout_ms=20000),
- "C05": P([("torn", 90), ("index_states", 10), ("boundary", 19)], [("torn", 3000), ("index_states", 300), ("boundary", 190)]),
- "C06": P([("index_states", 50), ("roundtrip", 15), ("boundary", 38), ("sparse_boundary", 3), ("torn", 20)],
-          [("index_states", 1500), ("roundtrip", 300), ("boundary", 120), ("sparse_boundary", 30)]),
+ "C05": P([("torn", 90), ("index_states", 10), ("boundary", 19), ("boundary2", 6)], [("torn", 3000), ("index_states", 300), ("boundary", 190), ("boundary2", 90)]),
+ "C06": P([("index_states", 50), ("roundtrip", 15), ("boundary", 38), ("boundary2", 10), ("sparse_boundary", 3), ("torn", 20)],
+          [("index_states", 1500), ("roundtrip", 300), ("boundary", 120), ("boundary2", 90), ("sparse_boundary", 30)]),
  "C07": P([("format", 40), ("roundtrip", 25), ("assets", 2), ("reopen", 20), ("boundary_reader", 12)], [("format", 1200), ("roundtrip", 600), ("assets", 2), ("reopen", 300), ("boundary_reader", 100)]),
  "C08": P([("caches", 60)], [("caches", 2000)]),
  "C09": P([("caches_reopen", 40), ("caches_faults", 30)], [("caches_reopen", 1200), ("caches_faults", 1200)]),
  "C10": P([("resample", 60)], [("resample", 2000), ("boundary", 10)]),
  "C11": P([("caches", 30), ("cache_sections", 12), ("caches_reopen", 10)], [("caches", 800), ("cache_sections", 150), ("caches_reopen", 300)]),
- "C12": P([("roundtrip", 40), ("reopen", 15), ("torn", 30), ("index_states", 15), ("boundary", 12)],
-          [("roundtrip", 800), ("reopen", 400), ("torn", 600), ("index_states", 400), ("boundary", 60)]),
+ "C12": P([("roundtrip", 40), ("reopen", 15), ("torn", 30), ("index_states", 15), ("boundary", 12), ("boundary2", 6)],
+          [("roundtrip", 800), ("reopen", 400), ("torn", 600), ("index_states", 400), ("boundary", 60), ("boundary2", 60)]),
  "C13": P([("ranges", 70), ("bigsection", 3)], [("ranges", 2500), ("boundary", 30), ("bigsection", 40)]),
  "C14": P([("ranges", 70), ("bigsection", 3)], [("ranges", 2500), ("boundary", 30), ("bigsection", 40)]),
- "C15": P([("roundtrip", 40), ("reopen", 20), ("torn", 30), ("refuse", 10), ("boundary", 12)], [("roundtrip", 1000), ("reopen", 500), ("torn", 1000), ("refuse", 300)]),
+ "C15": P([("roundtrip", 40), ("reopen", 20), ("torn", 30), ("refuse", 10), ("boundary", 12), ("boundary2", 10)], [("roundtrip", 1000), ("reopen", 500), ("torn", 1000), ("refuse", 300), ("boundary", 60), ("boundary2", 90)]),
  "C16": P([("roundtrip", 30), ("refuse", 20), ("caches", 20), ("ranges", 10), ("reopen", 40)], [("roundtrip", 600), ("refuse", 500), ("caches", 600), ("ranges", 300)]),
  "C17": P([("contract", 60), ("roundtrip", 10)], [("contract", 1500), ("roundtrip", 200)]),
  "C18": P([("corrupt", 80)], [("corrupt", 2500)]),
@@ -119,6 +119,7 @@ def properties_of_failure(rec, jf):
             if k == "new" and absent: ps.add("C17")
         else:
             ps.add("C15")
+            ps.add("C07")     # the data file is no longer the documented encoding of what was appended
             if k == "open":
                 ps.add("C05" if (c["torn"] or c["index_fault"]) else "C04")
                 if c["format"] or c["asset"]: ps.add("C07")
